@@ -55,6 +55,7 @@ struct Fibre {
 	uint32_t exit_vc[NSIM_MAXF];
 	void (*fn) (void *); void *arg;
 	void *tls_val[MAXKEYS];
+	void *emu_key[4]; char emu_data[4][16] __attribute__ ((aligned (16)));   /* emulated __thread variables of the simulated code */
 	uintptr_t fstack[MAXFSTACK]; int fdepth;
 	uintptr_t fself[MAXFSTACK];      /* a PC inside each entered function (parallel to fstack, which holds call sites) */
 	uintptr_t last_entered;
